@@ -101,7 +101,29 @@ def build(case):
     raise AssertionError(k)
 
 
+INVALID_UNITARIES = {
+    "scaled": lambda: 1.001 * np.identity(2),          # (deviations inside the constructor's np.allclose tolerance are accepted by design)
+    "shear": lambda: np.array([[1, 1], [0, 1]], dtype=complex),
+    "zero": lambda: np.zeros((2, 2)),
+    "nan": lambda: np.array([[1, 0], [0, np.nan]], dtype=complex),
+    "nan-offdiag": lambda: np.array([[1, np.nan], [0, 1]], dtype=complex),
+    "inf": lambda: np.array([[np.inf, 0], [0, 1]], dtype=complex),
+    "nan-4x4": lambda: np.diag([1, 1, np.nan, 1]).astype(complex),
+    "almost": lambda: np.array([[1, 1e-4], [0, 1]], dtype=complex),
+}
+
+
 def impl(case):
+    if case.get("kind") == "general-invalid":
+        # the constructor must refuse a matrix that is not unitary (also one with non-finite entries); if it accepts, the claims are checked
+        G = ctx()["G"]
+        u = INVALID_UNITARIES[case["what"]]()
+        try:
+            g = G.GeneralGate(u, 1 if len(u) == 2 else 2)
+        except ValueError:
+            return {"rejected": True}
+        m = np.asarray(g.as_matrix(), dtype=complex)
+        return {"rejected": False, "unitary_claim": bool(g.is_unitary()), "_minv": m, "desc": f"GeneralGate(<{case['what']}>)"}
     g = build(case)
     out = {"desc": describe(g), "ckey": class_key(g)}
     m = np.asarray(g.as_matrix(), dtype=complex)
@@ -140,6 +162,8 @@ def close(a, b, tol=1e-12):
 
 
 def compare(case, o, m, what=("mat", "inv", "herm", "wires")):
+    if case.get("kind") == "general-invalid":
+        return None
     if "harness_exception" in o:
         return "harness exception: " + o["harness_exception"]
     if "mat" in what:
@@ -165,6 +189,11 @@ def compare(case, o, m, what=("mat", "inv", "herm", "wires")):
 # ---------------------------------------------------------------------------------------------
 
 def oracle_c01(case, o):
+    if case.get("kind") == "general-invalid":
+        if o.get("rejected") is False:
+            return [(f"C01:general-gate-accepts-non-unitary:{case['what']}", f"GeneralGate accepted a matrix that is not unitary ({case['what']}); "
+                     f"is_unitary() = {o.get('unitary_claim')}, matrix = {np.array2string(o['_minv'], precision=3)}")]
+        return []
     if "harness_exception" in o:
         return []
     bad = []
@@ -245,6 +274,8 @@ def reference_matrix(g):
 
 
 def oracle_c02(case, o):
+    if case.get("kind") == "general-invalid":
+        return []
     if "harness_exception" in o:
         return []
     g, m = o["_g"], o["_m"]
@@ -269,6 +300,8 @@ def oracle_c02(case, o):
 
 
 def oracle_c03(case, o):
+    if case.get("kind") == "general-invalid":
+        return []
     if "inverse_raised" in o:
         return [(f"C03:inverse-raised:{o.get('ckey')}", o["inverse_raised"])]
     if "harness_exception" in o:
@@ -283,6 +316,8 @@ def oracle_c03(case, o):
 
 
 def oracle_c16(case, o):
+    if case.get("kind") == "general-invalid":
+        return []
     if "harness_exception" in o:
         return []
     bad = []
@@ -325,6 +360,8 @@ def gen_cases(tier, rng):
             if nc == 3 and w == 2 and not thorough:
                 continue
             yield {"kind": "mplx", "nc": nc, "w": w, "seed": rng.randrange(10 ** 9)}
+    for w in INVALID_UNITARIES:
+        yield {"kind": "general-invalid", "what": w}
     for form in ("tuple", "ndarray", "bools", "int8"):
         for cs in ([0], [1], [0, 1], [1, 0], [0, 0, 1]):
             yield {"kind": "ctrl", "cs": cs, "csform": form, "target": rng.choice(["ry", "sgate"]), "seed": rng.randrange(10 ** 9), "theta": rng.uniform(-3, 3)}
@@ -371,7 +408,7 @@ def run_gate_check(rep, drv, tier, rng, oracle, what, opname):
                                 f"ControlledGate built with ctrl_state={case['cs']} (passed as {case.get('csform', 'list')}) acts on pattern {list(o['_g'].ctrl_state)}")]
         for nt in o.get("notes", []):
             rep.count("assumption:" + nt)
-        rep.count("class:" + o.get("ckey", "?").split("<")[0])
+        rep.count("class:" + (o.get("ckey") or "?").split("<")[0])
         return out
 
     run_correspondence(rep, drv, gen_cases(tier, rng), impl, mreq, lambda c, o, m: compare(c, o, m, what), orc, opname, batch=200, req_uses_output=True)
